@@ -217,7 +217,11 @@ pub fn stub_lock_no_inline(_m: &crate::mutex::RawMutexLock) {
 }
 
 pub fn stub_grow<T, A: core::alloc::Allocator>(_v: &mut ::std::collections::VecDeque<T, A>) {
-    // buffer reallocation is outside every claim of engine K
+    // A VecDeque of the channel (buffer or waiting list) never has to grow inside the bounds of engine K:
+    // bounded buffers hold at most `capacity` values, unbounded ones start with 32 places, waiting lists
+    // with 4 / 8.  Reaching this point therefore means the buffer is being filled beyond its capacity
+    // (or a harness left its bound) - it must not be silently cut off.
+    assert!(false, "C08: a channel queue had to grow beyond its initial capacity (buffer over capacity)");
     kani::assume(false);
 }
 
